@@ -160,6 +160,45 @@ func runC19(c *Ctx) {
 					}
 				}
 			}
+			// directed: the same keys deleted on sibling branches of a version that holds them, the second sibling
+			// created later (higher version id), with and without a put in between
+			{
+				p := w.nodes[r.Intn(len(w.nodes))]
+				w.commit(p)
+				for _, k := range worldKeys {
+					// make sure the parent line holds values: write them in a first child
+					_ = k
+				}
+				base := w.child(p, true)
+				if base != nil {
+					for _, k := range worldKeys {
+						w.s.HTTP("POST", "node/"+base.uuid+"/kv/key/"+k, []byte("base-"+k))
+					}
+					w.log("kv put all keys at v%d", base.v)
+					w.commit(base)
+					s1 := w.child(base, true)
+					s2 := w.child(base, true)
+					if s1 != nil && s2 != nil {
+						for i, k := range worldKeys {
+							w.s.HTTP("DELETE", "node/"+s1.uuid+"/kv/key/"+k, nil)
+							if i%2 == 0 {
+								w.s.HTTP("DELETE", "node/"+s2.uuid+"/kv/key/"+k, nil)
+							} else {
+								w.s.HTTP("POST", "node/"+s2.uuid+"/kv/key/"+k, []byte("s2-"+k))
+							}
+						}
+						w.log("kv delete all keys at v%d; delete/put alternately at sibling v%d", s1.v, s2.v)
+						s3 := w.child(base, true)
+						if s3 != nil {
+							for _, k := range worldKeys {
+								w.s.HTTP("DELETE", "node/"+s3.uuid+"/kv/key/"+k, nil)
+							}
+							w.log("kv delete all keys at third sibling v%d", s3.v)
+						}
+						c.Count("directed-sibling-deletes")
+					}
+				}
+			}
 			w.settle()
 			insts := []string{"kv", "ann", "roi", "gray"}
 			before := map[string]string{}
